@@ -22,7 +22,7 @@ from rtlmc.explore import Spec
 
 PROPERTY = "C27"
 TECHNIQUE = "per-cycle BFS; idle inputs free, control inputs held during a run, ready free"
-SLACK = 3
+SLACK = 8          # generous bubble window (cycles); the statement fixes no latency
 
 
 def _const(L, width, endian="little", mlw=4):
